@@ -111,7 +111,7 @@ fn check_pair_reads(c: &Cfg, bc: &bitar::chunker::Config, p1: &[u8], p2: &[u8], 
 pub fn run(rep: &mut Report) {
     let thorough = rep.thorough();
     let cfgs = cfgs(thorough);
-    let slen = if thorough { 15 } else { 13 };
+    let slen = if thorough { 16 } else { 13 };
     let palpha: Vec<u8> = vec![0x00, 0x07];
     let pre = prefixes(&palpha, 3);
     // quick: P1 = empty, every P2; thorough: every unordered pair
